@@ -103,6 +103,7 @@ var phases = map[string]func(cr *childResult, seed uint64, quick bool){
 	"wire":     phaseWire,
 	"h2replay": phaseH2Replay,
 	"carry":    phaseCarry,
+	"share":    phaseShare,
 }
 
 func main() {
@@ -145,7 +146,7 @@ func runC09(r *hk.Run) {
 		return
 	}
 	os.MkdirAll(r.OutDir, 0o755)
-	for _, ph := range []string{"replay", "h2replay", "carry", "h1", "wire", "h2", "h3"} {
+	for _, ph := range []string{"replay", "h2replay", "carry", "share", "h1", "wire", "h2", "h3"} {
 		out := fmt.Sprintf("%s/child_%s.json", r.OutDir, ph)
 		os.Remove(out)
 		cmd := exec.Command(exe, "child", ph, fmt.Sprint(r.Seed), r.Tier, out)
